@@ -80,7 +80,7 @@ schema(A.Property, type='Type', readable='bool', writable='bool', construct='boo
 schema(A.Callback, ctype='str?')
 schema(A.Include, name='str', version='str')
 
-schema(message.Position, filename='str?', line='int?', column='int?', is_typedef='bool')
+schema(message.Position, filename='str?', line='int|str?', column='int|str?', is_typedef='bool')   # strings when read from a GIR
 schema(message.MessageLogger, _cwd='str', _output='opaque', _namespace='Namespace?', _enable_warnings='bool',
        _enable_strict='bool', _warning_count='int')
 
